@@ -139,3 +139,5 @@ def run(chk):
     _run_inner(chk)
     from . import padding
     padding.rule_sha_padding(chk, cf.PROGRAM[0] or cf.Program())
+    from . import twins
+    twins.rule_token_agreement(chk, cf.PROGRAM[0] or cf.Program(), 'K1', floor=150)
